@@ -3,6 +3,8 @@ package readline
 import (
 	"strings"
 
+	"github.com/reeflective/readline/inputrc"
+
 	"github.com/reeflective/readline/internal/history"
 	"github.com/reeflective/readline/internal/zzverif"
 )
@@ -66,11 +68,13 @@ func ZZ_C09_Nav() {
 				src.Write(e)
 			}
 			rl.History.Add("zz", src)
-			rl.line.Set([]rune(T)...)
-			rl.cursor.Set(len([]rune(T)))
-			// record the in-progress line in the undo history, as the main loop does after
-			// every command that produced it
-			rl.History.Save()
+			// the in-progress text arrives as the user's typing does: one self-insert per
+			// character, each followed by the undo-history save the main loop performs
+			for _, r := range T {
+				rl.line.Insert(rl.cursor.Pos(), r)
+				rl.cursor.Inc()
+				rl.History.SaveWithCommand(inputrc.Bind{Action: "self-insert"})
+			}
 			for _, c := range alphabet {
 				rl.Config.Bind("emacs", c.key, c.name, false)
 			}
